@@ -366,6 +366,27 @@ def run_case(case: Dict) -> CaseResult:
                     src = net.get_node_by_hostname(hosts[op[1] % len(hosts)])
                     dst = ips[hosts[op[2] % len(hosts)]] if op[2] >= 0 else absent_ip(ips, hosts[op[1] % len(hosts)], -op[2])
                     src.ping(dst, pings=int(op[3]))
+                elif k == "recable":
+                    # run-time cabling change through the Network API: the host's cable is taken out (both ends disabled
+                    # first, as an operator would) and a new one of the same bandwidth put in between the same two ports;
+                    # every OTHER link must go on starting each tick at zero and within its bandwidth
+                    nic = net.get_node_by_hostname(hosts[op[1] % len(hosts)]).network_interface.get(1)
+                    old = getattr(nic, "_connected_link", None)
+                    if nic is None or old is None or id(old) not in m.links:
+                        continue
+                    other = old.endpoint_b if old.endpoint_a is nic else old.endpoint_a
+                    ea, eb = old.endpoint_a, old.endpoint_b  # remove_link clears them
+                    acct = m.links.pop(id(old))
+                    nic.disable()
+                    other.disable()
+                    net.remove_link(old)
+                    new = net.connect(ea, eb, bandwidth=old.bandwidth)  # same orientation, same name
+                    # the NEW link is left out of the accounting (its first tick mixes frames sent while its ends come up
+                    # one after the other; not validated against the monitor's conventions): the op is there for what it
+                    # does to every other link
+                    nic.enable()
+                    other.enable()
+                    res.label("has_recable")
                 else:
                     sim.apply_request(form(op, hosts, ips))
             close_tick()
@@ -454,6 +475,7 @@ def op_strategy(topo: str):
     if topo != "wifi":
         traffic.append(st.tuples(st.just("dos")))
     control = [
+        st.tuples(st.just("recable"), hi),
         st.tuples(st.just("nic"), hi, st.sampled_from(["disable", "enable", "enable"])),
         st.tuples(st.just("power"), hi, st.sampled_from(["shutdown", "startup", "startup"])),
     ]
